@@ -587,6 +587,19 @@ def check_c19(prop, tier, replay, selftest):
     res.extra["tlaps"] = tlaps_proof("FrontendProof")
     tr = tlc_trace("Trace_Frontend", out)
     res.add_trace(tr)
+    # the same workload (reduced) on a build with the frontend feature ALONE: the streaming code is interleaved with feature-gated
+    # bookkeeping (ad-hoc counting, variable lists) in Bdd::node, and the mirror must not depend on any of it
+    fb = build_harness(features=["frontend"], target_dir=os.path.join(HARNESS, "target-fe"))
+    out2 = os.path.join(WORK, "frontend_C19_feonly.ndjson")
+    run_harness(fb, ["frontend", "--tier", "feat", "--out", out2])
+    tr2 = tlc_trace("Trace_Frontend", out2)
+    res.add_trace(tr2)
+    for gl, t in tr2["tuples"]:
+        if gl is not None and t[0] == "MISMATCH":
+            rec = json.loads(tr2["lines"][gl - 1])
+            res.violation("feonly_%s_%s" % (rec["id"], t[4]), {"property": prop, "component": "frontend", "build": "frontend feature only", "record": rec, "mismatch": t},
+                          "C19 %s at step %s of run %s (%s; build with the frontend feature only)" % (t[4], t[5], rec["id"], rec.get("mode")))
+    res.extra["builds"] = ["default", "frontend only"]
     seen = set()
     polls = 0
     for line in tr["lines"]:
@@ -1081,10 +1094,13 @@ def server_collect(prop, res, tr):
     res.extra["footprint_conformance"] = ("every request's database commands match ServerShapes!HandlerCommands (commands, collections, filter keys) "
                                           "and every task write uses {name, username}" if not res.drift else "drift: see 'drift'")
     for gl, t in tr["tuples"]:
-        if gl is None or t[0] != "MISMATCH" or t[3] != prop:
+        if gl is None or t[0] != "MISMATCH":
+            continue
+        what = t[4][0] if isinstance(t[4], list) else t[4]
+        # somebody else's running task showing up in my response is a leak between users (C17) as much as a wrong task status (C16)
+        if t[3] != prop and not (prop == "C17" and what == "running-task-nobody-started-for-this-problem"):
             continue
         rec = json.loads(tr["lines"][gl - 1])
-        what = t[4][0] if isinstance(t[4], list) else t[4]
         racetag = t[5]
         sig = None
         if racetag == "rename-window" and what == "foreign-problem-in-response":
